@@ -101,6 +101,15 @@ impl Archive {
             // Use 4MB buffer to batch writes and minimize syscalls
             // Default 8KB buffer causes ~200 syscalls for typical archives
             self.writer = Some(BufWriter::with_capacity(4 * 1024 * 1024, file.try_clone()?));
+            // Verification hook: optional smaller buffer so that each add_part becomes real write(2)
+            // calls and injected write faults surface at distinct call sites (performance parameter only).
+            #[cfg(ragc_verif)]
+            if let Some(cap) = std::env::var("RAGC_VERIF_BUFCAP")
+                .ok()
+                .and_then(|s| s.parse::<usize>().ok())
+            {
+                self.writer = Some(BufWriter::with_capacity(cap, file.try_clone()?));
+            }
             self.file = Some(file);
         }
         self.f_offset = 0;
@@ -437,6 +446,15 @@ impl Archive {
         }
 
         Ok(())
+    }
+}
+
+/// Verification hook (compiled only with `--cfg ragc_verif`): read-only view of the per-stream
+/// sequential read cursors (part of the reader's hidden state).
+#[cfg(ragc_verif)]
+impl Archive {
+    pub fn verif_state(&self) -> Vec<usize> {
+        self.streams.iter().map(|s| s.cur_id).collect()
     }
 }
 
